@@ -546,6 +546,37 @@ Each: real tridas -> listing -> real trias -> UF2 -> independent reader. non-tri
 	{
 		bins.push(unhex(&h.replace(' ', "")).unwrap());
 	}
+	// MOV Rd, PC only reads the PC and falls through
+	bins.push(unhex("784608307047").unwrap());
+	// branches at the limits of their ranges need long files: filler NOPs around B / B<cond> at -2048, +2046, -256, +254
+	{
+		let nop = enc(&Instruction::Nop).unwrap();
+		let bx = unhex("7047").unwrap();
+		let mut mk = |pre: usize, i: Instruction, post: usize, tail: &[u8]| -> Option<Vec<u8>>
+		{
+			let mut b = Vec::new();
+			for _ in 0..pre {b.extend_from_slice(&nop);}
+			b.extend_from_slice(&enc(&i)?);
+			for _ in 0..post {b.extend_from_slice(&nop);}
+			b.extend_from_slice(tail);
+			Some(b)
+		};
+		let (_, always) = dec(&0xE000u16.to_le_bytes()).unwrap();
+		let (_, bne) = dec(&0xD100u16.to_le_bytes()).unwrap();
+		let (Instruction::B{cond: al, ..}, Instruction::B{cond: ne, ..}) = (always, bne) else {unreachable!()};
+		// backward: target = start of file, branch at offset 2*pre: off = -(2*pre + 4)
+		for (c, pre) in [(al, 1022usize), (al, 1021), (ne, 126), (ne, 125)]
+		{
+			let tail: &[u8] = if c == al {&[]} else {&bx};
+			if let Some(b) = mk(pre, Instruction::B{cond: c, off: -(2 * pre as i32 + 4)}, 0, tail) {bins.push(b);}
+		}
+		// forward: branch first, target = last instruction (BX LR): off = 2*post + 2 - 4... computed from the layout
+		for (c, post) in [(al, 1024usize), (al, 1023), (ne, 128), (ne, 127)]
+		{
+			let off = 2 + 2 * post as i32 - 4;
+			if let Some(b) = mk(0, Instruction::B{cond: c, off}, post, &bx) {bins.push(b);}
+		}
+	}
 	let mut rejected = 0u64;
 	while bins.len() < n
 	{
